@@ -108,7 +108,7 @@ func drainMergeReput(run *Runner, g *Gen, class string) bool {
 // runC15: sequential histories around Merge, one sub-class per structure kind so that the list finding
 // cannot hide a KV / set / sorted-set regression.
 func runC15(c *CaseCtx) {
-	if c.Case%16 == 9 {
+	if slot(c, 16) == 9 {
 		kind := []string{"kv", "set", "zset"}[c.Rng.Intn(3)]
 		modes := []int{0}
 		if kind == "kv" {
@@ -437,7 +437,7 @@ func runC16(c *CaseCtx) {
 func init() {
 	register(&Check{
 		ID: "C16", Level: "fault_enumeration",
-		NCases: func(t string) int { return tier(t, 48, 800) },
+		NCases: func(t string) int { return tier(t, 48, 600) },
 		Run:    runC16,
 		Rule: "case = generated pre-merge history (KV / sets / sorted sets with ZAdd+ZRem / those mixed / sorted sets with positional removals / lists; small segments so 5-30 files take part), then Merge runs under the file-mutation monitor: EVERY event inside Merge (open, truncate, write, sync, close, remove) is a crash point and every write is also torn at the record-field boundaries; " +
 			"each image is re-opened with the real Open and fully observed; oracle: recovered contents == contents before Merge (the reference model's state); one scenario class per structure kind; non-trivial = >=10 images; distinct by history hash",
